@@ -13,7 +13,7 @@ from engine.core import rule
 from engine.program import named_parent
 
 PROM = "api::ingest::prometheus::"
-SCOPE_RX = re.compile(r"^(api::ingest::|<api::ingest::)|^ingester::Ingester::(write|compute_shard_id|extract_metrics)(::\{closure#\d+\})*$")
+SCOPE_RX = re.compile(r"^(api::ingest::|<api::ingest::)|^ingester::Ingester::(write|compute_shard_id|extract_metrics)(::\{closure#\d+\})*$|^sharding::(TimeBucket|ShardKey)::[a-z_0-9]+$")
 PANIC_CALL = re.compile(r"::(unwrap|expect|unwrap_err|expect_err)$|^std::ops::Index(Mut)?::index(_mut)?$|copy_from_slice$|::value$|split_at(_mut)?$|panicking::|swap_remove$|Vec::<T, A>::remove$|unwrap_unchecked$")
 # results of these local functions are positions inside the input: reviewed summaries
 BOUNDED_POS = {PROM + "read_varint": ".1", PROM + "field_end": ""}   # read_varint -> (value, new_pos <= data.len());  field_end -> pos <= end <= data.len()
@@ -117,12 +117,80 @@ def _expr_sig(b, op, at):
     return frozenset(sig)
 
 
+def _cval(b, op, depth=0):
+    """integer value of an operand that is a compile-time constant (a literal, or checked arithmetic over such), else None"""
+    if op.get("k") == "const":
+        return op.get("int")
+    if op.get("k") not in ("copy", "move") or depth > 6:
+        return None
+    pl = op["pl"]
+    proj = M._proj_key(pl.get("p"))
+    ds = [d for d in b.defs().get(pl["l"], []) if d[2] == "assign" and not d[3]["lhs"].get("p")]
+    if len(ds) != 1 or len(b.defs().get(pl["l"], [])) != 1:
+        return None
+    rv = ds[0][3]["rv"]
+    if rv["k"] == "use" and not proj:
+        return _cval(b, rv["o"], depth + 1)
+    if rv["k"] == "bin" and (not proj or proj == [".0"]):
+        x, y = _cval(b, rv["a"], depth + 1), _cval(b, rv["b"], depth + 1)
+        if x is None or y is None:
+            return None
+        o = rv["op"].replace("WithOverflow", "")
+        v = {"Add": x + y, "Sub": x - y, "Mul": x * y}.get(o)
+        if v is None and o == "Div" and y != 0:
+            v = int(x / y)
+        return v if v is not None and -(1 << 63) <= v < (1 << 63) else None
+    return None
+
+
+def _bin_def(b, op):
+    """the single `bin` rvalue an operand is defined by (through plain copies and the .0 of a checked op), else None"""
+    for _ in range(6):
+        if op.get("k") not in ("copy", "move"):
+            return None
+        ds = b.defs().get(op["pl"]["l"], [])
+        if len(ds) != 1 or ds[0][2] != "assign" or ds[0][3]["lhs"].get("p"):
+            return None
+        rv = ds[0][3]["rv"]
+        if rv["k"] == "bin":
+            return rv
+        if rv["k"] == "use":
+            op = rv["o"]
+            continue
+        return None
+    return None
+
+
 def _discharge(cx, b, k, bi, t):
     """returns a reason string if the panic site at block bi is discharged automatically, else None"""
     at = (bi, M.T)
     if t["k"] == "assert":
         kind = t["akind"]
         ops = t["aops"]
+        if kind == "DivisionByZero" or kind.startswith("RemainderByZero"):
+            # the assert's operand is the dividend; the divisor is what the condition compares with 0
+            d = _bin_def(b, t["cond"]) if t.get("cond") else None
+            if d is not None and d["op"] == "Eq":
+                for x, z in ((d["a"], d["b"]), (d["b"], d["a"])):
+                    if _cval(b, z) == 0:
+                        v = _cval(b, x)
+                        if v is not None and v != 0:
+                            return "divisor is the non-zero constant %d" % v
+        if kind in ("Overflow:Div", "Overflow:Rem") and len(ops) == 2:
+            v = _cval(b, ops[1])
+            if v is not None and v != -1:
+                return "divisor is the constant %d, not -1" % v
+        if kind.startswith(("Overflow:Mul", "Overflow:Add", "Overflow:Sub")) and len(ops) == 2:
+            x, y = _cval(b, ops[0]), _cval(b, ops[1])
+            if x is not None and y is not None:
+                return "constant arithmetic (%d, %d)" % (x, y)
+            if kind.startswith("Overflow:Mul"):
+                # (v / c) * c with the same positive constant c: division truncates toward zero, so |(v / c) * c| <= |v|
+                for q, c in ((ops[0], ops[1]), (ops[1], ops[0])):
+                    cv = _cval(b, c)
+                    d = _bin_def(b, q)
+                    if cv is not None and cv > 0 and d is not None and d["op"] == "Div" and _cval(b, d["b"]) == cv:
+                        return "truncated quotient times its own divisor %d cannot exceed the dividend in magnitude" % cv
         if kind in ("Overflow:Shr", "Overflow:Shl"):
             s = ops[1]
             if s["k"] == "const" and 0 <= s.get("int", 99) < 64:
@@ -576,3 +644,51 @@ def r4(cx):
                 cx.violation(k, "parses-this-requests-bytes", "%s: the protobuf reader is not handed the fresh result of decompress_vec(body) (it reads %s): a protobuf message has no terminator, so "
                              "bytes left in a reused buffer by an earlier, larger request are parsed as further series of this one" % (b.sp(bi), foreign or "a buffer that is not this request's decompression"), [b.sp(bi)])
     cx.floor("parse_write_request call sites", n, 1)
+
+
+ML = "api::ingest::otlp::merge_labels"
+
+
+@rule("C17", "R5", "a data point's own attributes win over its resource's: merge_labels starts from a copy of its FIRST map and inserts every entry of its SECOND map over it (never the other "
+      "way round, whatever the sizes), and every caller passes the resource labels first and the point's attributes second")
+def r5(cx):
+    b = cx.body(ML)
+    if b is None:
+        cx.violation(ML, "anchor-missing", "body not found", [])
+        return
+    ins = [bi for bi, t in b.calls() if t["callee"].endswith("HashMap::<K, V, S, A>::insert") or t["callee"].endswith("HashMap::<K, V, S>::insert")]
+    clones = [bi for bi, t in b.calls() if t["callee"] == "std::clone::Clone::clone" and "HashMap" in (t.get("self_ty") or "") + b.locals[t["dest"]["l"]]["ty"]]
+    if not (cx.floor("inserts in merge_labels", len(ins), 1, ML) and cx.floor("map copies in merge_labels", len(clones), 1, ML)):
+        return
+    base = set()
+    for c in clones:
+        base |= {x[1] for x in M.operand_origins(b, b.term(c)["args"][0], at=(c, M.T), adapters=frozenset()) if x[0] == "arg"}
+    over = set()
+    for i in ins:
+        for a in b.term(i)["args"][1:]:
+            over |= {x[1] for x in M.operand_origins(b, a, at=(i, M.T)) if x[0] == "arg"}
+    if base == {1} and over == {2}:
+        cx.passed(ML, "second-map-overrides-first", [b.sp(ins[0])])
+    else:
+        cx.violation(ML, "second-map-overrides-first", "%s: merge_labels no longer copies its first map and lays its second over it (copy of parameter(s) %s, inserts from %s): on a key present "
+                     "in both, which value survives now depends on something else (e.g. the map sizes), and a point can end up with its resource's value" % (b.sp(ins[0]), sorted(base), sorted(over)), [b.sp(ins[0])])
+    n = 0
+    for k, c in cx.prog.sites(lambda c: c == ML):
+        bb = cx.body(k)
+        if bb is None:
+            continue
+        for bi, t in bb.calls():
+            if t["callee"] != ML or t.get("sp") != c["sp"]:
+                continue
+            n += 1
+            o0 = M.operand_origins(bb, t["args"][0], at=(bi, M.T))
+            o1 = M.operand_origins(bb, t["args"][1], at=(bi, M.T))
+            nm = lambda x: (str(bb.name_of(x[1]) or x[1]) if x[0] == "arg" and isinstance(x[1], int) else str(x[1])) + x[2]
+            res0 = any("resource" in nm(x).lower() for x in o0 if x[0] in ("arg", "upvar", "call"))
+            pt1 = any(".attributes" in x[2] or "attributes" in str(x[1]) for x in o1 if x[0] in ("arg", "upvar", "call")) or M.has_call(o1, lambda cc: cc.endswith("key_values_to_labels"))
+            res1 = any("resource" in nm(x).lower() for x in o1 if x[0] in ("arg", "upvar"))
+            if res0 and pt1 and not res1:
+                cx.passed(k, "resource-first-point-second", [c["sp"]])
+            else:
+                cx.violation(k, "resource-first-point-second", "%s: merge_labels is not called as (resource labels, point attributes)" % c["sp"], [c["sp"]])
+    cx.floor("merge_labels call sites", n, 4)
